@@ -3,18 +3,24 @@
  *   depth <n>
  *   seq <ops>      explicit sequence (replay): ops like d0,s2,d2
  * alphabet: d<i> = zck_get_chunk_data(chunk i, buffer of its declared size), s<i> = zck_get_chunk_comp_data(chunk i,
- * buffer of its stored size).  One case per sequence.
+ * buffer of its stored size).  With "extra 1" the alphabet also has history operations whose own results are reported but
+ * not judged: r1 / r40 = zck_read of 1 / 40 bytes on the same context, V = zck_validate_checksums, F = zck_find_valid_chunks
+ * (codes 2n .. 2n+3).  One case per sequence.
  * output: Q <idx> seq=<ops> res=<ret:hex;ret:hex;...>
  */
 #include "drv.h"
 
-typedef struct { blob file; int depth; int nchunks; int alpha; long *starts; long total; char **explicit_seq; int nexp; } qctx;
+typedef struct { blob file; int depth; int nchunks; int alpha; int extra; long *starts; long total; char **explicit_seq; int nexp; } qctx;
 
 static void do_seq(qctx *c, const int *ops, int n, int idx, FILE *out) {
     int fd = tmp_file_with("cr", c->file.p, c->file.n);
     zckCtx *zck = zck_create();
     fprintf(out, "Q %d seq=", idx);
-    for(int i = 0; i < n; i++) fprintf(out, "%s%c%d", i ? "," : "", ops[i] % 2 ? 's' : 'd', ops[i] / 2);
+    static const char *xname[] = {"r1", "r40", "V", "F"};
+    for(int i = 0; i < n; i++) {
+        if(ops[i] >= 2 * c->nchunks) fprintf(out, "%s%s", i ? "," : "", xname[ops[i] - 2 * c->nchunks]);
+        else fprintf(out, "%s%c%d", i ? "," : "", ops[i] % 2 ? 's' : 'd', ops[i] / 2);
+    }
     if(!n) fputc('-', out);
     if(!zck_init_read(zck, fd)) {
         fprintf(out, " res=OPENFAIL\n");
@@ -24,6 +30,13 @@ static void do_seq(qctx *c, const int *ops, int n, int idx, FILE *out) {
     }
     fprintf(out, " res=");
     for(int i = 0; i < n; i++) {
+        if(ops[i] >= 2 * c->nchunks) {
+            int x = ops[i] - 2 * c->nchunks;
+            char tmp[64];
+            long r = x == 0 ? zck_read(zck, tmp, 1) : x == 1 ? zck_read(zck, tmp, 40) : x == 2 ? zck_validate_checksums(zck) : zck_find_valid_chunks(zck);
+            fprintf(out, "%sx%lde%d", i ? ";" : "", r, zck_is_error(zck));
+            continue;
+        }
         zckChunk *ch = zck_get_chunk(zck, ops[i] / 2);
         if(!ch) { fprintf(out, "%sNOCHUNK", i ? ";" : ""); continue; }
         ssize_t want = ops[i] % 2 ? zck_get_chunk_comp_size(ch) : zck_get_chunk_size(ch);
@@ -44,8 +57,13 @@ static void run_one(int idx, FILE *out, void *vctx) {
     int ops[16], n = 0;
     if(idx < c->nexp) {
         char *s = strdup(c->explicit_seq[idx]), *save = NULL;
-        for(char *t = strtok_r(s, ",", &save); t && n < 16; t = strtok_r(NULL, ",", &save))
-            ops[n++] = atoi(t + 1) * 2 + (t[0] == 's');
+        for(char *t = strtok_r(s, ",", &save); t && n < 16; t = strtok_r(NULL, ",", &save)) {
+            if(!strcmp(t, "r1")) ops[n++] = 2 * c->nchunks;
+            else if(!strcmp(t, "r40")) ops[n++] = 2 * c->nchunks + 1;
+            else if(!strcmp(t, "V")) ops[n++] = 2 * c->nchunks + 2;
+            else if(!strcmp(t, "F")) ops[n++] = 2 * c->nchunks + 3;
+            else ops[n++] = atoi(t + 1) * 2 + (t[0] == 's');
+        }
         free(s);
         do_seq(c, ops, n, idx, out);
         return;
@@ -69,6 +87,7 @@ int cmd_chunkreq(FILE *job, FILE *out) {
         if(n >= 2 && !strcmp(t[0], "file")) c.file = blob_arg(t[1]);
         else if(n >= 2 && !strcmp(t[0], "depth")) c.depth = atoi(t[1]);
         else if(n >= 2 && !strcmp(t[0], "nchunks")) c.nchunks = atoi(t[1]);
+        else if(n >= 2 && !strcmp(t[0], "extra")) c.extra = atoi(t[1]);
         else if(n >= 2 && !strcmp(t[0], "seq")) {
             if(c.nexp >= cap) { cap = cap ? cap * 2 : 16; c.explicit_seq = realloc(c.explicit_seq, cap * sizeof(char *)); }
             c.explicit_seq[c.nexp++] = strdup(t[1]);
@@ -76,7 +95,7 @@ int cmd_chunkreq(FILE *job, FILE *out) {
         free(t);
         free(line);
     }
-    c.alpha = c.nchunks * 2;
+    c.alpha = c.nchunks * 2 + (c.extra ? 4 : 0);
     long total = 0, block = c.alpha;
     for(int l = 1; l <= c.depth; l++) { total += block; block *= c.alpha; }
     run_opts o = {.chunk = 128, .timeout_ms = 10000};
